@@ -238,5 +238,6 @@ func init() {
 	PropRules["C06"] = []string{"ORD-10", "ORD-11", "ORD-12"}
 	PropRules["C09"] = []string{"COD-5", "COD-6", "COD-7"}
 	PropRules["C15"] = []string{"COD-8", "COD-9", "COD-10", "COD-11"}
+	PropRules["C16"] = []string{"ADP-1", "ADP-2", "ADP-3", "ADP-4", "ADP-5", "ADP-6", "ADP-7", "ADP-8"}
 	PropRules["C13"] = []string{"COD-1", "COD-12", "COD-2", "COD-3", "COD-4"}
 }
